@@ -382,6 +382,8 @@ class StmtMixin:
                         s2.frames[fr.fid][h.name] = e2
                     s2.ghost = dict(s2.ghost)
                     s2.ghost["handling"] = list(s2.ghost.get("handling", [])) + [e2]
+                    # ghost record of every handler entered: (original exception, classes of the clause, line) - used by C38
+                    s2.ghost["caught"] = tuple(s2.ghost.get("caught", ())) + ((getattr(e2, "src", e2), classes, h.lineno),)
                     for s3, c3 in self.exec_block(h.body, s2, fr):
                         s3.ghost = dict(s3.ghost)
                         s3.ghost["handling"] = list(s3.ghost.get("handling", []))[:-1]
@@ -432,6 +434,17 @@ class StmtMixin:
                 h.acquisitions += 1
                 st.trace.append(Event("lock", "acquire", [cm], lineno=node.lineno))
                 return [(st, cm)]
+        if isinstance(cm, CMGen):
+            pre, post = cm.split()
+            out = []
+            for s, c in self.exec_block(pre, st, cm.fr):
+                if c.kind == "ok":
+                    out.append((s, None))
+                elif c.kind == "raise":
+                    out.append((s, Raised(c.value)))
+                else:
+                    raise Unsupported("contextmanager generator returned before its yield", node)
+            return out
         sp = self.specs.get("cm_enter")
         if sp is not None:
             r = sp(self, st, cm, node)
@@ -446,6 +459,16 @@ class StmtMixin:
                 h.held = False
                 st.trace.append(Event("lock", "release", [cm], lineno=node.lineno))
                 return [(st, ctl)]
+        if isinstance(cm, CMGen):
+            if ctl.kind != "ok":
+                # an exception / return / break leaves through the generator's yield: a plain
+                # (no try around the yield) generator-contextmanager does not run its tail
+                return [(st, ctl)]
+            pre, post = cm.split()
+            out = []
+            for s, c in self.exec_block(post, st, cm.fr):
+                out.append((s, c if c.kind == "raise" else OK))
+            return out
         sp = self.specs.get("cm_exit")
         if sp is not None:
             r = sp(self, st, cm, ctl, node)
@@ -681,6 +704,25 @@ class StmtMixin:
         if active:
             raise Unsupported("while loop without contract did not terminate under concrete unrolling", n)
         return done
+
+
+class CMGen:
+    """A @contextmanager generator function called with bound arguments: `with` runs the body up to
+    its single top-level `yield`, then the rest on normal exit."""
+
+    def __init__(self, clo, fr):
+        self.clo = clo
+        self.fr = fr
+
+    def split(self):
+        body = self.clo.node.body
+        idx = [i for i, s in enumerate(body) if isinstance(s, ast.Expr) and isinstance(s.value, ast.Yield)]
+        if len(idx) != 1:
+            raise Unsupported("contextmanager generator without a single top-level yield", self.clo.node)
+        for i, s in enumerate(body):
+            if i != idx[0] and any(isinstance(x, (ast.Yield, ast.YieldFrom)) for x in ast.walk(s)):
+                raise Unsupported("contextmanager generator with nested yield", s)
+        return body[: idx[0]], body[idx[0] + 1:]
 
 
 class LoopCtx:
